@@ -26,6 +26,20 @@ def write_open_sites(ctx, fi):
     return out
 
 
+def _closed_before(cfg, n, reps) -> bool:
+    """The write-open at *n* (a with_enter node) is closed before each rename in *reps* runs."""
+    if n.kind != "with_enter":
+        return False
+    wexits = [m for m in cfg.nodes if m.kind == "with_exit" and m.ast is n.ast]
+    from ..cfg import WithCtx
+    for r in reps:
+        if any(isinstance(c, WithCtx) and c.stmt is n.ast for c in r.ctx):
+            return False      # the rename is inside the `with` block: the data may still sit in the buffer
+        if not cfg.normal_completion_dominates(wexits, r):
+            return False
+    return True
+
+
 def _replace_after(cfg, du, n, path_expr):
     """os.replace(<same tmp expr>, X) nodes that post-dominate the write at n (every normal path from the
     end of the with block to the function exit passes one)."""
@@ -59,6 +73,9 @@ def a1(ctx):
         if ok:
             after = cfg.reachable([x for w in wexit for x, l in w.succ if l != "exc"], block_nodes=reps, follow_exc=False)
             ok = cfg.exit.id not in after
+        obs.append(ctx.ob(bool(reps) and _closed_before(cfg, n, reps), fi.qualname, where(fi, n), "temporary file is closed before it is renamed",
+                          "os.replace runs after the `with open(tmp)` block", "os.replace(%s, ...) runs while the temporary file is still open (inside the `with` block): "
+                          "the member is replaced before the data is flushed; a failing flush or a crash leaves a truncated member" % src(p)))
         obs.append(ctx.ob(ok, fi.qualname, where(fi, n), "temporary file is renamed onto the member",
                           "os.replace(%s, ...) follows on every normal path" % src(p),
                           "after writing `%s` there is a normal path to the exit that does not os.replace() it onto the member" % src(p)))
@@ -98,6 +115,10 @@ def a2(ctx):
                     continue
                 tmp = expr_is_tmp_path(du, node, p)
                 reps = _replace_after(cfg, du, node, p) if tmp else []
+                if tmp and reps:
+                    obs.append(ctx.ob(_closed_before(cfg, node, reps), fi.qualname, where(fi, node), "temporary file closed before rename",
+                                      "os.replace follows the `with` block", "os.replace(%s, ...) runs inside the `with open(...)` block: the file is renamed into place "
+                                      "before its contents are flushed, so a crash in between leaves an empty/partial file under the final name" % src(p)))
                 obs.append(ctx.ob(tmp and bool(reps), fi.qualname, where(fi, node), "write-open is tmp-then-replace",
                                   "writes %s then os.replace" % src(p),
                                   "`%s` truncates and rewrites `%s` in place: a crash in between leaves a partial file%s"
@@ -293,4 +314,47 @@ def b3(ctx):
                     obs.append(ctx.bad(f.qualname, where(f, n), "index written outside locked_index", "`%s` writes the index directly" % node_desc(n)))
     if nsites < 2:
         raise AnalysisError("only %d index mutation sites found in TreeGitStore (confirmed: 2)" % nsites)
+    return obs
+
+
+@rule("C04", "A3", floor=2, kind="S",
+      desc="vdir: the temporary names the writers use are names every lister hides (writer/lister agreement), so the "
+           "leftover of a crashed write is never served as a member")
+def a3(ctx):
+    from .c01 import LISTERS, _yield_nodes, hiding_predicates
+    lf = ctx.own_method(VDIR, "iter_with_etag")
+    hidden = set()
+    for y in _yield_nodes(ctx.cfg(lf)):
+        hidden |= {v for k, v in hiding_predicates(ctx, lf, y) if k == "endswith"}
+    obs = []
+    n = 0
+    for f in ctx.P.cls(VDIR).methods.values():
+        for fn in [f] + list(f.locals.values()):
+            cfg = ctx.cfg(fn)
+            du = DefUse(cfg)
+            for node, c, p in write_open_sites(ctx, fn):
+                if not expr_is_tmp_path(du, node, p):
+                    continue
+                n += 1
+                # shape of the temporary name: <something> + CONST  (suffix)
+                exprs = [p]
+                if isinstance(p, ast.Name):
+                    exprs = [d.value for d in du.reaching(node, p.id) if d.value is not None]
+                ok = False
+                shape = "?"
+                for e in exprs:
+                    for x in ast.walk(e):
+                        if isinstance(x, ast.BinOp) and isinstance(x.op, ast.Add) and isinstance(x.right, ast.Constant) and isinstance(x.right.value, str):
+                            shape = "<name> + %r" % x.right.value
+                            if x.right.value in hidden:
+                                ok = True
+                        if isinstance(x, ast.BinOp) and isinstance(x.op, ast.Add) and isinstance(x.left, ast.Constant) and isinstance(x.left.value, str) and x.left.value not in ("",):
+                            if not isinstance(x.right, ast.Constant):
+                                shape = "%r + <name>" % x.left.value
+                obs.append(ctx.ob(ok, fn.qualname, where(fn, node), "temporary name is hidden by the lister",
+                                  "temporary name %s; lister hides names ending in %s" % (shape, sorted(hidden)),
+                                  "the writer's temporary file is named %s, but iter_with_etag only hides names ending in %s: the leftover of an interrupted "
+                                  "write is listed (and parsed, and its UID registered) as a member" % (shape, sorted(hidden))))
+    if n < 2:
+        raise AnalysisError("vdir: fewer than 2 temporary-file writers found")
     return obs
